@@ -368,8 +368,12 @@ class Sedov(ExactSolver):
         pressure = interp(r)
 
 
-        specific_internal_energy = pressure / self.gamm1 / density
-        sound_speed = (self.gamma * pressure / density)**(1./2.)
+        # density is exactly zero inside the hole of a vacuum-type solution
+        with np.errstate(divide='ignore', invalid='ignore'):
+            specific_internal_energy = np.where(
+                density > 0., pressure / self.gamm1 / density, 0.)
+            sound_speed = np.where(
+                density > 0., (self.gamma * pressure / density)**(1./2.), 0.)
 
         return ExactSolution([r, density, pressure, specific_internal_energy,
                               velocity, sound_speed],
